@@ -148,14 +148,19 @@ func (m *ModuleInstance) setExitCode(exitCode uint32, flag exitCodeFlag) bool {
 // ensureResourcesClosed ensures that resources assigned to ModuleInstance is released.
 // Only one call will happen per module, due to external atomic guards on Closed.
 func (m *ModuleInstance) ensureResourcesClosed(ctx context.Context) (err error) {
-	if closeNotifier := m.CloseNotifier; closeNotifier != nil { // experimental
+	// FailIfClosed calls this every time it sees a module that was closed by its context, from every invocation
+	// that is in flight on the module, possibly at the same time: each resource is taken by exactly one caller.
+	m.resourceCloseMux.Lock()
+	closeNotifier, sysCtx, codeCloser := m.CloseNotifier, m.Sys, m.CodeCloser
+	m.CloseNotifier, m.Sys, m.CodeCloser = nil, nil, nil
+	m.resourceCloseMux.Unlock()
+
+	if closeNotifier != nil { // experimental
 		closeNotifier.CloseNotify(ctx, uint32(m.Closed.Load()>>32))
-		m.CloseNotifier = nil
 	}
 
-	if sysCtx := m.Sys; sysCtx != nil { // nil if from HostModuleBuilder
+	if sysCtx != nil { // nil if from HostModuleBuilder
 		err = sysCtx.FS().Close()
-		m.Sys = nil
 	}
 
 	if mem := m.MemoryInstance; mem != nil && m.memoryReleased.CompareAndSwap(false, true) {
@@ -167,11 +172,10 @@ func (m *ModuleInstance) ensureResourcesClosed(ctx context.Context) (err error) 
 		}
 	}
 
-	if m.CodeCloser != nil {
-		if e := m.CodeCloser.Close(ctx); err == nil {
+	if codeCloser != nil {
+		if e := codeCloser.Close(ctx); err == nil {
 			err = e
 		}
-		m.CodeCloser = nil
 	}
 	return err
 }
